@@ -124,10 +124,30 @@ def coq_sources():
     return tree_files(COQ, (".v",)) + [os.path.join(COQ, "_CoqProject")]
 
 
+def tla_gen():
+    """regenerate coq/theories/Tla/gen/*.v from /repo's .tla files (translator tla2coq); cached by content hash"""
+    files = tree_files(os.path.join(REPO, "formal-models"), (".tla",)) + tree_files(os.path.join(VERIF, "tla2coq"), (".py", ".sh", ".out"))
+    key = "tlagen-" + file_hash(files)
+    gen = os.path.join(COQ, "theories", "Tla", "gen")
+
+    def go():
+        p = sh("timeout 900 %s/tla2coq/gen.sh" % VERIF, check=False)
+        return {"ok": p.returncode == 0, "log": p.stdout[-3000:]}
+    r = cached(key, go)
+    want = ["Spec_dbft.v", "Spec_antiMEV.v", "Spec_CV3.v", "Spec_centralizedCV.v", "Spec_multipool.v", "Witness_CV3.v"]
+    if r["ok"] and not all(os.path.exists(os.path.join(gen, w)) for w in want):
+        os.remove(os.path.join(WORK, "cache", key + ".json"))
+        r = cached(key, go)
+    return r
+
+
 def build_coq():
     """full .vo build of the Coq development (make is incremental); returns ok + log"""
+    g = tla_gen()
     with Lock("coq-build"):
         t = time.time()
+        if not g["ok"]:
+            return {"ok": False, "log": "tla2coq generation failed:\n" + g["log"], "wall_s": 0, "gen_failed": True}
         if not os.path.exists(os.path.join(COQ, "Makefile")) or \
                 os.path.getmtime(os.path.join(COQ, "Makefile")) < os.path.getmtime(os.path.join(COQ, "_CoqProject")):
             sh("coq_makefile -f _CoqProject -o Makefile", cwd=COQ)
